@@ -53,7 +53,7 @@ struct Case {
   uint64_t extra = 0;                     // limbs allocated in res beyond res_size (must stay untouched)
   int mtype = 0;                          // 0 FFT64, 1 NTT120 (big ops exist on FFT64 only)
   unsigned mask = 0;                      // CPU mask at module creation
-  int alias = 0;                          // 0 none, 1 res==a, 2 res==b, 3 res==a==b
+  int alias = 0;                          // 0 none, 1 res==a, 2 res==b, 3 res==a==b, 4 a==b (two views of one input, output separate)
   int64_t p = 0;
   int prefill = 3;
   int bits = 61;                          // |values| < 2^bits (<= 61 so add/sub stay in int64)
@@ -134,13 +134,17 @@ inline void run(Ctx& ctx, Case c) {
   MODULE_TYPE mt = (c.mtype && !o.res_big) ? NTT120 : FFT64;
   MODULE* mod = spq::modules().get(n, mt, c.mask);
   if (o.nin < 1) { c.as = 0; if (c.alias & 1) c.alias &= ~1; }
-  if (o.nin < 2) { c.bs = 0; c.alias &= ~2; }
+  if (o.nin < 2) { c.bs = 0; c.alias &= ~2; c.alias &= ~4; }
+  if (c.alias & 3) c.alias &= ~4;
+  const bool in_ab = (c.alias & 4) && o.a_big == o.b_big;  // a and b are the same buffer with possibly different limb counts
+  if (!in_ab) c.alias &= ~4;
   uint64_t rsl = o.res_big ? n : n + c.rpad;
   uint64_t asl = o.a_big ? n : n + c.apad;
   uint64_t bsl = o.b_big ? n : n + c.bpad;
   // aliasing requires the same stride: an aliased small operand takes the output's stride
   if (c.alias & 1) asl = rsl;
   if (c.alias & 2) bsl = rsl;
+  if (in_ab) bsl = asl;
   auto ext = [&](uint64_t limbs, uint64_t sl) { return limbs ? ((limbs - 1) * sl + n) * 8 : (uint64_t)0; };
   uint64_t r_limbs = c.rs + c.extra;
   if (c.alias & 1) r_limbs = std::max(r_limbs, c.as);
@@ -152,9 +156,12 @@ inline void run(Ctx& ctx, Case c) {
   const bool mid = c.amode == 2;
   Buf R = ar.alloc(ext(r_limbs, rsl), mid ? MID : (c.seed & 1) ? OVER : UNDER, c.misalign, c.prefill, c.seed);
   Buf A = (c.alias & 1) ? R : ar.alloc(ext(c.as, asl), mid ? MID : (c.seed & 2) ? OVER : UNDER, (c.misalign * 3 + 8) % 64, 3, c.seed + 11);
-  Buf B = (c.alias & 2) ? R : ar.alloc(ext(c.bs, bsl), mid ? MID : (c.seed & 4) ? OVER : UNDER, (c.misalign * 5 + 16) % 64, 3, c.seed + 12);
+  Buf A0;  // a==b: one buffer holding max(a_size, b_size) limbs
+  if (in_ab) A0 = ar.alloc(ext(std::max(c.as, c.bs), asl), mid ? MID : (c.seed & 2) ? OVER : UNDER, (c.misalign * 3 + 8) % 64, 3, c.seed + 11);
+  if (in_ab) A = A0;
+  Buf B = in_ab ? A0 : (c.alias & 2) ? R : ar.alloc(ext(c.bs, bsl), mid ? MID : (c.seed & 4) ? OVER : UNDER, (c.misalign * 5 + 16) % 64, 3, c.seed + 12);
   int64_t *res = R.as<int64_t>(), *a = A.as<int64_t>(), *b = B.as<int64_t>();
-  const bool same_ab = (c.alias & 3) == 3;  // a and b are the very same buffer
+  const bool same_ab = (c.alias & 3) == 3 || in_ab;  // a and b are the very same buffer
   for (uint64_t i = 0; i < (same_ab ? std::max(c.as, c.bs) : c.as); ++i)
     for (uint64_t q = 0; q < n; ++q) a[i * asl + q] = rng.sbits(c.bits);
   if (!same_ab)
@@ -162,7 +169,7 @@ inline void run(Ctx& ctx, Case c) {
       for (uint64_t q = 0; q < n; ++q) b[i * bsl + q] = rng.sbits(c.bits);
   // boundary values in a few places
   if (c.as && n) a[rng.below(n)] = ((int64_t)1 << c.bits) - 1;
-  if (c.bs && n && !((c.alias & 3) == 3)) b[rng.below(n)] = -(((int64_t)1 << c.bits) - 1);
+  if (c.bs && n && !same_ab) b[rng.below(n)] = -(((int64_t)1 << c.bits) - 1);
   std::vector<int64_t> a_snap(A.len / 8), b_snap(B.len / 8), expect(R.len / 8);
   if (A.len) memcpy(a_snap.data(), a, A.len);
   if (B.len) memcpy(b_snap.data(), b, B.len);
